@@ -214,13 +214,32 @@ def oracle_C09(an):
 # ---------------------------------------------------------------------------------------
 
 def obs_C03(an):
-    return "fault" if (an.tr.abort or an.tr.faults) else "clean"
+    return ("fault" if (an.tr.abort or an.tr.faults) else "clean"), [tuple(l.b) for l in an.lines]
 
 
 def oracle_C03(an):
+    v = []
     if an.tr.abort:
-        return ["sanitizer/assert abort after call %s: %s" % (an.lines[-1].op if an.lines else "-", an.tr.abort.strip().splitlines()[1][:300] if len(an.tr.abort.strip().splitlines()) > 1 else an.tr.abort[:300])]
-    return []
+        rep = an.tr.abort.strip().splitlines()
+        v.append("sanitizer/assert abort after call %s: %s" % (an.lines[-1].op if an.lines else "-", (rep[1] if len(rep) > 1 else an.tr.abort)[:300]))
+    # ownership of the two buffer regions: a region changes only in calls in which its machine was active
+    # (machine activity is read from the diagnostic state fields)
+    for li in range(1, len(an.lines)):
+        p, l = an.lines[li - 1], an.lines[li]
+        if not an.is_svc(li) or len(p.st) < 3:
+            continue
+        if any(e[0] == "L" and e[1] != 0 for e in an.ev[li][:1]):
+            continue
+        edits = "/e:" in an.op_of(li) or any("/e:" in o for o in an.scn.ops if o.startswith("hq"))
+        cmd_active = p.st[0] != 0 or any(e[0] == "R" and e[1] is not None for e in an.ev[li])
+        uns_active = p.st[1] != 0 or p.st[2] != 0
+        if not cmd_active and l.b[0] != p.b[0]:
+            v.append("the command region of the working buffer changed in call %s although the command machine was idle" % l.op)
+            break
+        if not uns_active and l.b[1] != p.b[1]:
+            v.append("the unsolicited region of the working buffer changed in call %s although the unsolicited machine was idle with an empty queue" % l.op)
+            break
+    return v
 
 
 # ---------------------------------------------------------------------------------------
@@ -661,11 +680,19 @@ def oracle_C11(an):
 # C12: refused reads/writes change nothing (single-trace part)
 # ---------------------------------------------------------------------------------------
 
+def refusal_only(an, li):
+    evs = [e for e in an.ev[li] if e[0] not in ("L", "U")]
+    return bool(evs) and all((e[0] == "R" and e[1] is None) or (e[0] == "W" and not e[2]) for e in evs)
+
+
 def obs_C12(an):
-    s = []
-    for e in seq(an, {"rd", "Hc", "Hu", "V", "mem"}):
-        s.append(e)
-    return s, an.outbytes()
+    """calls in which every io attempt was refused: result, and whether anything observable changed"""
+    out = []
+    for li in range(1, len(an.lines)):
+        if an.is_svc(li) and refusal_only(an, li):
+            p, l = an.lines[li - 1], an.lines[li]
+            out.append((l.ret, l.q == p.q, l.b == p.b, not l.m))
+    return out
 
 
 def oracle_C12(an):
@@ -786,11 +813,11 @@ def obs_C14(an):
         t = an.op_of(li).split()
         if t and t[0] in ("hexit", "hold"):
             out.append((t[0], l.ret))
-    h = []
-    for l in an.lines:
-        if not h or h[-1] != l.q[1]:
-            h.append(l.q[1])
-    return out, h, [e for e in seq(an, {"N"}) if e[1] == "x"], obs_C01(an)
+    held_reads = 0
+    for li in range(1, len(an.lines)):
+        if an.lines[li - 1].q[1] == 2:
+            held_reads += sum(1 for e in an.ev[li] if e[0] == "R" and e[1] is not None)
+    return out, [l.q[1] for l in an.lines], [e for e in seq(an, {"N"}) if e[1] == "x"], held_reads
 
 
 def oracle_C14(an):
@@ -845,6 +872,8 @@ def oracle_C14(an):
                 held = False
         if held and req is not None:
             released = True
+        if li > 0 and not an.is_svc(li) and l.q[1] != an.lines[li - 1].q[1]:
+            v.append("cat_is_hold changed from %d to %d across the non-service operation %r (op %s)" % (an.lines[li - 1].q[1], l.q[1], an.op_of(li), l.op))
         # the flag: HOLD while held and not yet released
         if held and req is None and l.q[1] != 2:
             v.append("cat_is_hold reports %d after call %s although a command is held" % (l.q[1], l.op))
@@ -990,13 +1019,8 @@ def oracle_C16(an):
 # ---------------------------------------------------------------------------------------
 
 def obs_C18(an):
-    out = []
-    for li, l in enumerate(an.lines):
-        x = (l.q[0], l.q[1])
-        if not out or out[-1] != x:
-            out.append(x)
     rets = [(an.op_of(li).split()[0], l.ret) for li, l in enumerate(an.lines) if an.op_of(li).split()[0] in ("busy", "hold")]
-    return out, rets, obs_C01(an)
+    return [(l.q[0], l.q[1]) for l in an.lines], rets
 
 
 def oracle_C18(an):
